@@ -24,8 +24,11 @@ stage ends in a Rust `Err` (`cd /nonexistent | true; echo after` — repaired in
 former counter-example is now this positive theorem).  The `lastpipe` theorems separate the last
 command of a pipeline (the parent's own under `shopt -s lastpipe`, its effects persist) from all
 earlier stages (always isolated).
-`concurrent_child_invisible_partial` covers every interleaving of a background body with parent
-activity.
+`background_control_flow_stays_in_job` / `wait_returns_at_most_a_status`: a background job that ends
+through `exit`, `break`, `continue`, `return` or `set -e`, collected by `wait`, `wait %N` or
+`wait %1 %2` while the parent is at top level, in a loop, in a function or under `set -e`, gives the
+parent a status and nothing else.  `concurrent_child_invisible_partial` covers every interleaving of
+a background body with parent activity.
 -/
 namespace BrushVerif.C12
 open BrushVerif.Wire BrushVerif.Subshell BrushVerif.Gen.ShellFields BrushVerif.Spec.Subshell
@@ -206,6 +209,44 @@ theorem exit_stays_in_subshell (root : List Str) (c : Ctx) (n : Nat) (p : ShellP
     (exec root c [.exit n] p w).aborted = false ∧ (exec root c [.exit n] p w).shell = prepare c p :=
   ⟨exec_aborted root c _ p w hc, subshell_preserves_parent_value root c _ p w hc⟩
 
+/-! ## collecting a background job: the synchronisation step -/
+
+/-- how the body of a background job ends, as the job table records it (`Job::wait` hands out the
+task's whole `ExecutionResult`, control-flow request included) -/
+def jobEnd (root : List Str) (f : Frame) (ms : List Mut) (p : ShellPart) (w : World) : JobResult :=
+  let r := runMuts root ms { sh := cloneWith fresh (frameShell root f p), world := w, inFn := (f = .func) }
+  { status := r.status, flow := r.flow }
+
+/-- **What comes back through `wait`, `wait %N`, `wait %1 %2` is at most a status.**  Whatever the
+collected jobs ended with — an `exit`, `break`, `continue`, `return`, an abort under `set -e` — the
+builtin hands the parent's interpreter no control-flow request. -/
+theorem wait_returns_at_most_a_status (s : Sync) (jobs : List JobResult) :
+    (waitResult s jobs).flow = Flow.normal := rfl
+
+/-- **A background job's control flow stays in the job.**  For every synchronisation, every frame
+of the parent (top level, loop body, function body, `set -e`), every job body of any length and
+every parent state: after the job has been collected the parent's `Shell` value is unchanged, it has
+received a status and nothing else, and its line / loop / function goes on. -/
+theorem background_control_flow_stays_in_job (root : List Str) (s : Sync) (f : Frame) (ms : List Mut)
+    (p : ShellPart) (w : World) :
+    (exec root (.bgw s f) ms p w).shell = p ∧ (exec root (.bgw s f) ms p w).status = 0 ∧
+    (exec root (.bgw s f) ms p w).aborted = false :=
+  exec_bgw root s f ms p w
+
+/-- non-vacuity: job bodies do end with every kind of request (and change their clone), in the
+frames where the seeded regression would have made the parent act on it -/
+example :
+    (jobEnd [] .plain [.assign "v1".toList "q".toList, .exit 7] (defaultShell []) ⟨18, 1024⟩) = ⟨7, .exit⟩ ∧
+    (jobEnd [] .loop [.break_] (defaultShell []) ⟨18, 1024⟩).flow = .brk ∧
+    (jobEnd [] .loop [.echo "x".toList, .continue_] (defaultShell []) ⟨18, 1024⟩).flow = .cont ∧
+    (jobEnd [] .func [.return_ 4] (defaultShell []) ⟨18, 1024⟩) = ⟨4, .ret⟩ ∧
+    (jobEnd [] .plain [.return_ 4] (defaultShell []) ⟨18, 1024⟩) = ⟨2, .normal⟩ ∧
+    (jobEnd [] .errexit [.false_, .assign "v1".toList "q".toList] (defaultShell []) ⟨18, 1024⟩) = ⟨1, .exit⟩ ∧
+    (jobEnd [] .plain [.seto "errexit".toList true, .cd "nx".toList, .true_] (defaultShell []) ⟨18, 1024⟩) = ⟨1, .exit⟩ ∧
+    (∀ c ∈ Ctx.all, c ≠ .pl →
+      (exec [] c [.assign "v1".toList "q".toList, .exit 7] (defaultShell []) ⟨18, 1024⟩).aborted = false) := by
+  decide
+
 /-! ## a background body interleaved with parent activity -/
 
 /-- **Every schedule.**  Start a background body on a clone; let parent and child commands interleave
@@ -222,7 +263,7 @@ example :
       (.parent, .alias "a1".toList "true".toList)]
     (∀ e ∈ es, e.1 = Side.child → e.2.touchesWorld = false) ∧
     aget "v1".toList (runSched shared ["r".toList] es (fork fresh (defaultShell ["r".toList]) ⟨18, 1024⟩)).par.sh.vars =
-      some ⟨"p".toList, false, false⟩ := by decide
+      some { val := "p".toList, exported := false, readonly := false } := by decide
 
 /-- Full statement (no guard) fails: a child's `umask` is seen by the parent mid-flight. -/
 def concurrent_isolation_full : Prop :=
